@@ -4,6 +4,7 @@ import (
 	"fmt"
 
 	"tqsim/model"
+	"tqsim/world"
 )
 
 // Generate derives the plan of run number `run` of a property's check from the seed.
@@ -491,4 +492,142 @@ func genC08(r *Rand, p *Plan, tier string) {
 	}
 	p.Scen.Clients = []ClientSpec{cs}
 	p.Tape = r.Tape(800)
+}
+
+// ---- C17: shutdown and read deadlines ------------------------------------------------------
+
+func init() {
+	register("C17", genC17)
+	register("C20", genC20)
+}
+
+// probeClient builds a client for the probe server with nPk packets in distinct or
+// continued sessions; state selects where the connection is left.
+func probeClient(r *Rand, idx int, nPk int, state string) ClientSpec {
+	key := r.key()
+	cs := ClientSpec{Addr: clientAddr(idx), Key: key, SrvKey: key}
+	seqOf := map[uint32]int{}
+	for k := 0; k < nPk; k++ {
+		typ := uint8(1 + r.Intn(3))
+		sid := uint32(500 + r.Intn(3))
+		seq := seqOf[sid] + 2
+		if seqOf[sid] == 0 {
+			seq = 1
+		}
+		seqOf[sid] = seq
+		pk := &PktSpec{Ver: r.version(), Type: typ, Seq: uint8(seq), Flags: r.flags(false), Session: sid, Body: GenBody(r, PickOf(r, requestKinds(typ)...), false)}
+		cs.Ops = append(cs.Ops, Op{Kind: "send", Pkt: pk})
+		st := HStep{Reply: smallReply(r, typ)}
+		if r.Chance(50) {
+			st.Next = 1
+		} else {
+			seqOf[sid] = 0
+		}
+		if r.Chance(20) {
+			st.Park = true
+		}
+		cs.Handler = append(cs.Handler, st)
+	}
+	insertAwaits(r, &cs, PickOf(r, 0, 100))
+	switch state {
+	case "idle":
+		cs.Ops = append(cs.Ops, Op{Kind: "idle"})
+	case "mid-header":
+		tr := 1 + r.Intn(11)
+		cs.Ops = append(cs.Ops, Op{Kind: "send", Pkt: &PktSpec{Ver: 0xc0, Type: 1, Seq: 1, Session: 9000, Body: GenBody(r, model.KAuthenStart, false), Trunc: &tr}}, Op{Kind: "idle"})
+	case "mid-body":
+		pk := &PktSpec{Ver: 0xc0, Type: 1, Seq: 1, Session: 9001, Body: GenBody(r, model.KAuthenStart, true)}
+		full := len(pk.Wire(key))
+		tr := 12 + r.Intn(full-12+1)
+		if tr >= full {
+			tr = full - 1
+		}
+		pk.Trunc = &tr
+		cs.Ops = append(cs.Ops, Op{Kind: "send", Pkt: pk}, Op{Kind: "idle"})
+	case "close":
+		cs.Ops = append(cs.Ops, Op{Kind: "close"})
+	case "reset":
+		cs.Ops = append(cs.Ops, Op{Kind: "reset"})
+	}
+	return cs
+}
+
+func genC17(r *Rand, p *Plan, tier string) {
+	p.Family = "shutdown"
+	p.Scen.Server = "probe"
+	p.Scen.Stall = r.Chance(70)
+	if r.Chance(35) {
+		p.Mode = "batch"
+	}
+	n := r.Intn(7)
+	for i := 0; i < n; i++ {
+		cs := probeClient(r, i, r.Intn(4), PickOf(r, "idle", "idle", "mid-header", "mid-body", "close", "reset"))
+		cs.NotBefore = r.Intn(25)
+		if r.Chance(15) {
+			cs.WFault = append(cs.WFault, WFaultAt(1+r.Intn(3), "park"))
+		}
+		if r.Chance(5) {
+			cs.Refuse = true
+		}
+		p.Scen.Clients = append(p.Scen.Clients, cs)
+	}
+	// control events: cancellation, accept faults, listener close
+	if r.Chance(85) {
+		p.Scen.Ctl = append(p.Scen.Ctl, Ctl{Kind: "cancel", NotBefore: r.Intn(60)})
+	}
+	for k := r.Intn(3); k > 0; k-- {
+		p.Scen.Ctl = append(p.Scen.Ctl, Ctl{Kind: "accept-fault", Arg: PickOf(r, "temp", "temp", "plain", "fatal"), NotBefore: r.Intn(40)})
+	}
+	if r.Chance(10) {
+		p.Scen.Ctl = append(p.Scen.Ctl, Ctl{Kind: "close-listener", NotBefore: r.Intn(60)})
+	}
+	if r.Chance(50) {
+		p.Park = append(p.Park, "handler")
+	}
+	if r.Chance(20) {
+		p.Park = append(p.Park, PickOf(r, "log:context cancellation", "log:[%v] sessionID is complete", "log:Stopping server listener", "log:waiting for", "provider"))
+	}
+	p.Tape = r.Tape(1500)
+	p.MaxSteps = 1500
+}
+
+// WFaultAt is a small constructor (keeps generators readable).
+func WFaultAt(at int, kind string) world.WriteFault { return world.WriteFault{At: at, Kind: kind} }
+
+// ---- C20: gauges ---------------------------------------------------------------------------
+
+func genC20(r *Rand, p *Plan, tier string) {
+	p.Family = "gauges"
+	p.Scen.Server = "probe"
+	n := 1 + r.Intn(5)
+	for i := 0; i < n; i++ {
+		var cs ClientSpec
+		switch r.Intn(8) {
+		case 0: // refused at admission
+			cs = probeClient(r, i, 1, "idle")
+			cs.Refuse = true
+		case 1: // first packet with an even number
+			cs = probeClient(r, i, 0, "")
+			cs.Ops = []Op{{Kind: "send", Pkt: &PktSpec{Ver: 0xc0, Type: 1, Seq: uint8(2 * r.Intn(100)), Session: 77, Body: GenBody(r, model.KAuthenStart, false)}}, {Kind: "idle"}}
+		case 2: // key mismatch
+			cs = probeClient(r, i, 1+r.Intn(2), "idle")
+			cs.Key = []byte("another-key-" + r.Alnum(6))
+		case 3: // sequence violation after some good packets
+			cs = probeClient(r, i, 1+r.Intn(3), "")
+			bad := *cs.Ops[0].Pkt
+			cs.Ops = append(cs.Ops, Op{Kind: "send", Pkt: &bad}, Op{Kind: "idle"})
+		default: // completed and abandoned sessions, then close, reset or stay
+			cs = probeClient(r, i, 1+r.Intn(5), PickOf(r, "close", "reset", "idle", "mid-body", "close"))
+		}
+		for k := range cs.Handler {
+			cs.Handler[k].Park = false
+		}
+		cs.NotBefore = r.Intn(15)
+		p.Scen.Clients = append(p.Scen.Clients, cs)
+	}
+	if r.Chance(40) {
+		p.Scen.Ctl = append(p.Scen.Ctl, Ctl{Kind: "cancel", NotBefore: 5 + r.Intn(60)})
+	}
+	p.Tape = r.Tape(1200)
+	p.MaxSteps = 1500
 }
